@@ -57,6 +57,9 @@ type Ticker struct {
 	stopped bool
 	Period  Duration
 	done    chan struct{}
+	// next: virtual time at which the ticker is due next (under the scheduler). vrt.Tick delivers a tick only to
+	// tickers that are due, so a period chosen by the code under test (NewTicker / Reset) matters.
+	next int64
 }
 
 func NewTicker(d Duration) *Ticker {
@@ -80,9 +83,18 @@ func NewTicker(d Duration) *Ticker {
 		return t
 	}
 	vrt.NameChan(t.C, "ticker.C")
+	t.next = vrt.NowNanos() + int64(d)
 	vrt.S.Tickers = append(vrt.S.Tickers, &vrt.TickerState{
 		Stopped: &t.stopped,
 		Fire: func() bool {
+			now := vrt.NowNanos()
+			if now < t.next {
+				return false // not due yet
+			}
+			t.next += int64(t.Period)
+			if t.next <= now {
+				t.next = now + int64(t.Period) // ticks that were missed are dropped, as time.Ticker does
+			}
 			if len(t.C) < cap(t.C) {
 				t.C <- Now()
 				return true
@@ -110,6 +122,7 @@ func (t *Ticker) Reset(d Duration) {
 		return
 	}
 	t.stopped = false
+	t.next = vrt.NowNanos() + int64(d)
 }
 
 // ---- timers (not used by the code under test today; present so that a change which introduces them
